@@ -222,6 +222,7 @@ ROUND6 = {
     "C11": "references to ended flows read after the cut, an unfinished action of a discarded flow instance (found and fixed C11-F38), dict-valued action arguments matched by a literal.",
     "C12": "flows added to a running runtime through AddFlowsAction, a Colang 1.0 when block inside a while body with loop exits around it.",
     "C16": "the options handed over as new / kept dict or GenerationOptions object, reused across calls of different shapes.",
+    "C15": "prompt overflow (max_length) of one conversation between two turns of another, rail-name-list options on a request in flight next to a request without options.",
     "C19": "client cancellations of single requests as part of the schedule (only the other requests are asserted).",
     "C17": "generated values that are container literals with an unholdable element in any slot incl. dict keys.",
 }
